@@ -190,6 +190,15 @@ func (r *Rng) mutateAt(c *GenCfg, m map[string]interface{}, depth int) {
 // So first, middle and last members differ in how far the path gets with them.
 func (r *Rng) chainDoc(c *GenCfg) (map[string]interface{}, string) {
 	n := 2 + r.Intn(4)
+	// dense mode: longer paths, most levels are lists, few members end early - so that several
+	// list levels lie on ONE path and every parent contributes several values (what indexed
+	// look-ahead steps separated by plain list steps need in order to go wrong)
+	dense := r.P(30)
+	pList, pDead := 35, 40
+	if dense {
+		n = 3 + r.Intn(3)
+		pList, pDead = 65, 15
+	}
 	keys := make([]string, n)
 	for i := range keys {
 		keys[i] = r.Pick(c.Keys)
@@ -236,12 +245,12 @@ func (r *Rng) chainDoc(c *GenCfg) (map[string]interface{}, string) {
 				return r.Scalar(c)
 			}
 		}
-		if !inList && i > 0 && r.P(35) {
+		if !inList && i > 0 && r.P(pList) {
 			k := 2 + r.Intn(3)
 			l := make([]interface{}, 0, k)
 			for j := 0; j < k; j++ {
 				switch {
-				case r.P(40):
+				case r.P(pDead):
 					l = append(l, deadEnd(i-1))
 				case r.P(10):
 					l = append(l, r.Scalar(c))
@@ -351,12 +360,21 @@ func (r *Rng) enlarge(m map[string]interface{}, c *GenCfg) {
 func (r *Rng) DerivedPath(m map[string]interface{}, allowIdx bool, maxLen int) string {
 	if r.chainMap != nil && r.chainPath != "" && len(m) > 0 && sameMap(m, r.chainMap) && r.Bool() {
 		segs := strings.Split(r.chainPath, ".")
-		switch x := r.Intn(len(segs)); r.Intn(4) {
+		switch x := r.Intn(len(segs)); r.Intn(5) {
 		case 0:
 			segs[x] = "*"
 		case 1:
 			if allowIdx {
 				segs[x] = fmt.Sprintf("%s[%d]", segs[x], r.Intn(3))
+			}
+		case 2:
+			// several indexed steps on one path, plain (list) steps between them
+			if allowIdx {
+				for i := range segs {
+					if r.P(45) && segs[i] != "*" && segs[i] != "" {
+						segs[i] = fmt.Sprintf("%s[%d]", segs[i], r.Intn(2)+r.Intn(2)*r.Intn(2))
+					}
+				}
 			}
 		}
 		return strings.Join(segs, ".")
